@@ -34,6 +34,41 @@ def canonEvents (pevs : List PEv) : List String :=
   let flat := runs strs [] []
   flat.foldl (fun acc s => if acc.getLast? == some s then acc else acc ++ [s]) []
 
+def coveredB (s : Sys) : Bool :=
+  s.fs.ents.all (fun (e : Ent) => !(e.isDir && (e.path == ["W"] || isUnder ["W"] e.path)) ||
+    (match s.k.wdOfIno e.ino with
+     | some wd => lookupW s.lib.pathForWd wd == some e.path
+     | none => false))
+
+def sameTreeB (a b : Tree) : Bool := a.all (fun x => b.contains x) && b.all (fun x => a.contains x)
+
+/-- `pipespec <recursive> <full> I <n> op*n O <m> op*m` : evaluates the candidate theorems on a history -/
+def pipeSpecLine (ts : List String) : String :=
+  match ts with
+  | rec :: full :: "I" :: n :: rest =>
+    (do
+      let n ← n.toNat?
+      if rest.length < n then none else
+      let initOps ← (rest.take n).mapM pipeParseOp
+      let (m, rest2) ← (match rest.drop n with | "O" :: m :: r => m.toNat?.map (fun m => (m, r)) | _ => none)
+      if rest2.length ≠ m then none else
+      let ops ← rest2.mapM pipeParseOp
+      let k0 : Kern := ⟨[], 1, 1⟩
+      let fs0 := initOps.foldl (fun fs op => if validOp fs op then (kernelOp fs k0 op).1 else fs) FS.init
+      let s0 := Sys.start fs0 (bool01 rec) (bool01 full)
+      let step := fun (acc : Sys × List PEv × Bool × Bool × Bool) (op : Op) =>
+        let (s, evs, cov, valid, scope) := acc
+        if !validOp s.fs op then acc else      -- the harness would not have been able to apply it
+        let (s1, e) := s.op op
+        (s1, evs ++ e, cov && (coveredB s1 || s1.stopped), valid, scope && inScope op && quietOp s.fs s.k op)
+      let (fin, evs, cov, valid, scope) := ops.foldl step (s0, [], coveredB s0, true, true)
+      let t0 := if bool01 rec then treeW fs0 else treeW1 fs0
+      let t1 := if bool01 rec then treeW fin.fs else treeW1 fin.fs
+      let rep := replay t0 evs
+      let rep := if bool01 rec then rep else rep.filter (fun x => x.1.length = 2)
+      some s!"valid={b01 valid} scope={b01 scope} covered={b01 cov} replay={b01 (sameTreeB rep t1)} crashed={b01 fin.crashed} stopped={b01 fin.stopped}").getD "bad-op"
+  | _ => "bad-op"
+
 /-- `pipe <recursive> <full> I <n> op*n O <m> op*m` -/
 def pipeLine (ts : List String) : String :=
   match ts with
